@@ -320,7 +320,7 @@ func init() {
 			"the time stamp element carries the local calendar time plus zone (as the library emits and reads it); only local years 2000–2099 are in the domain",
 			"tz database embedded through time/tzdata",
 		},
-		Oracles: map[string]func(*core.Ctx, *core.Case){"cold-concurrent": coldConcurrent, "timer3": c17Timer3, "timer2": c17Timer2, "ambr": c17Ambr, "zones": c17Zones, "zone-one": c17ZoneOne, "stamps-day": c17StampsDay, "stamps-hourly": c17StampsHourly, "name": c17Name},
+		Oracles: map[string]func(*core.Ctx, *core.Case){"cold-entries": coldEntries, "cold-concurrent": coldConcurrent, "timer3": c17Timer3, "timer2": c17Timer2, "ambr": c17Ambr, "zones": c17Zones, "zone-one": c17ZoneOne, "stamps-day": c17StampsDay, "stamps-hourly": c17StampsHourly, "name": c17Name},
 		Exhaustive: func(tier string) (bool, string) {
 			return true, "both timer ranges, all AMBR value×unit×direction combinations, all zone×DST combinations, all name lengths 0..64; time stamps sampled (thorough: hourly over the whole century)"
 		},
@@ -445,6 +445,7 @@ func init() {
 			}
 		}})
 		us = append(us, coldUnits(tier, "nasConvert", "misc", "zones")...)
+		us = append(us, coldEntryUnits(tier, "nasConvert", "misc")...)
 		return us
 	}
 	core.Register(p)
